@@ -561,7 +561,8 @@ def configs(tier):
          Cfg("1 chain: fast 1, posterior 2 (thinning 2), chunk 2", 1, [(1, 1, 1), (POST, 2, 2)], chunk=2),
          Cfg("1 chain, 2 kernels: burn-in 1, posterior 1", 1, [(3, 1, 1), (POST, 1, 1)], K=2),
          Cfg("2 chains: posterior 2 only, chunk 1", 2, [(POST, 2, 1)]),
-         Cfg("1 chain: slow 2 (thinning 2), burn-in 1, no kernel classes", 1, [(2, 2, 2), (3, 1, 1), (POST, 1, 1)], classes=False)]
+         Cfg("1 chain: slow 2 (thinning 2), burn-in 1, no kernel classes", 1, [(2, 2, 2), (3, 1, 1), (POST, 1, 1)], classes=False),
+         Cfg("1 chain: burn-in 1, two posterior epochs (1 and 2 transitions)", 1, [(3, 1, 1), (POST, 1, 1), (POST, 2, 1)])]
     if tier == "thorough":
         q += [Cfg("2 chains: burn-in 1, posterior 2 (chunk 2)", 2, [(3, 1, 1), (POST, 2, 1)], chunk=2),
               Cfg("2 chains: slow 2, posterior 1", 2, [(2, 2, 1), (POST, 1, 1)]),
